@@ -79,6 +79,7 @@ def _direct(ctx, current, mon):
                 continue
             with numpy.errstate(all="ignore"):
                 gap = adi - iso
+            mon.judge_returned_values(obj, adi, iso)
             ok = (cv > 0) & (t[:, None] > 0)
             nontriv = bool(ok.any() and numpy.any(numpy.abs(gap[ok]) > 0))
             ctx.evaluation(f"{kind}|{hostile or 'generic'}|cv={'positive' if cvk != 3 else 'with-nonpositive-patch'}",
